@@ -4,7 +4,8 @@ in-package call edge (nearest in-package caller -> in-package callee), and snaps
 sys.modules / cwd / scratch directory / environment / class dictionaries before and after each case.
 
 stdin : {"src": ".../src", "scratch": dir, "cases": [{"id", "fmt", "text", "mode", "out"?}]}
-        mode: parse | parseLines | file | read | readStr | load | write (parse then writeStr(out))
+        mode: parse | parseLines | file | read | readStr | load | write (parse then writeStr(out)) |
+              twice (parse, edit the returned arrays in place, parse again with a fresh parser, compare)
 stdout: {"cases": [{"id", "outcome", "events": [...], "edges": [[caller, callee], ...], "diff": {...}}]}
 Frames are reported as "module.dotted:qualname"; the parent maps them to nodes of the static graph.
 """
@@ -151,6 +152,140 @@ def module_state():
     return out
 
 
+def pkg_modules():
+    return [m for n, m in list(sys.modules.items()) if n.startswith("diffpy.structure") and m is not None]
+
+
+def memo_tables():
+    """package callables that carry a functools cache: name -> current size"""
+    out = {}
+    for m in pkg_modules():
+        for k, v in list(vars(m).items()):
+            objs = [(k, v)]
+            if isinstance(v, type) and getattr(v, "__module__", "") == m.__name__:
+                objs += [(k + "." + kk, vv) for kk, vv in list(vars(v).items())]
+            for name, o in objs:
+                o = getattr(o, "__func__", o)
+                ci = getattr(o, "cache_info", None)
+                if callable(ci):
+                    try:
+                        out[m.__name__ + ":" + name] = ci().currsize
+                    except Exception:   # noqa
+                        out[m.__name__ + ":" + name] = -1
+    return out
+
+
+def walk(root, limit=60000):
+    """mutable objects reachable through containers, numpy arrays and instances of package classes: [(path, obj)]"""
+    import numpy
+    seen, out, stack = set(), [], [("", root, 0)]
+    while stack and len(out) < limit:
+        path, o, d = stack.pop()
+        if id(o) in seen or d > 12:
+            continue
+        seen.add(id(o))
+        if isinstance(o, numpy.ndarray):
+            out.append((path, o))
+            continue
+        if isinstance(o, (str, bytes, int, float, complex, bool, type(None), type, type(sys))) or callable(o):
+            continue
+        if isinstance(o, dict):
+            out.append((path, o))
+            for k, v in list(o.items()):
+                stack.append(("%s[%r]" % (path, k) if isinstance(k, (str, int)) else path + "[?]", v, d + 1))
+        elif isinstance(o, (list, tuple, set, frozenset)):
+            if not isinstance(o, (tuple, frozenset)):
+                out.append((path, o))
+            for i, v in enumerate(list(o)):
+                stack.append(("%s[%d]" % (path, i), v, d + 1))
+        if type(o).__module__.startswith("diffpy.structure") and hasattr(o, "__dict__"):
+            out.append((path, o))
+            for k, v in list(vars(o).items()):
+                if k in ("ciffile",):
+                    continue
+                stack.append((path + "." + k, v, d + 1))
+    return out
+
+
+def canon(o, seen=None, d=0):
+    import numpy
+    seen = seen if seen is not None else set()
+    if isinstance(o, numpy.ndarray):
+        return ["nd", list(o.shape), [repr(x) for x in o.ravel().tolist()][:400]]
+    if isinstance(o, float):
+        return repr(o)
+    if isinstance(o, (str, int, bool, type(None))):
+        return o
+    if id(o) in seen or d > 12:
+        return "<seen>"
+    seen.add(id(o))
+    if isinstance(o, dict):
+        return {"dict": sorted(([repr(k), canon(v, seen, d + 1)] for k, v in o.items()), key=lambda kv: kv[0])}
+    if type(o).__module__.startswith("diffpy.structure") and hasattr(o, "__dict__"):
+        body = {k: canon(v, seen, d + 1) for k, v in sorted(vars(o).items()) if k not in ("ciffile",)}
+        if isinstance(o, list):
+            body["<items>"] = [canon(v, seen, d + 1) for v in o]
+        return {"cls": type(o).__name__, "fields": body}
+    if isinstance(o, (list, tuple)):
+        return [type(o).__name__] + [canon(v, seen, d + 1) for v in o]
+    return "<%s>" % type(o).__name__
+
+
+def first_diff(a, b, path=""):
+    if type(a) is not type(b):
+        return path + ": %r vs %r" % (str(a)[:60], str(b)[:60])
+    if isinstance(a, dict):
+        for k in sorted(set(a) | set(b)):
+            if k not in a or k not in b:
+                return path + "." + str(k) + ": only in one"
+            r = first_diff(a[k], b[k], path + "." + str(k))
+            if r:
+                return r
+        return None
+    if isinstance(a, list):
+        if len(a) != len(b):
+            return path + ": length %d vs %d" % (len(a), len(b))
+        for i, (x, y) in enumerate(zip(a, b)):
+            r = first_diff(x, y, "%s[%d]" % (path, i))
+            if r:
+                return r
+        return None
+    return None if a == b else path + ": %r vs %r" % (str(a)[:60], str(b)[:60])
+
+
+def twice(fmt, text):
+    """parse, edit every returned mutable array in place, parse the same text again with a fresh parser:
+    the second result must equal the first and share no text-derived mutable object with it"""
+    import numpy
+    from diffpy.structure.parsers import getParser
+    # program constants (module-level data of the package, e.g. the predefined SpaceGroup objects) may be shared
+    const_ids = set()
+    for m in pkg_modules():
+        for _, o in walk(vars(m)):
+            const_ids.add(id(o))
+    p1 = getParser(fmt)
+    s1 = p1.parse(text)
+    root1 = {"stru": s1, "parser": p1}
+    snap1 = canon(root1)
+    g1 = [(pth, o) for pth, o in walk(root1) if id(o) not in const_ids]
+    ids1 = {id(o): pth for pth, o in g1}
+    edited = 0
+    for pth, o in g1:
+        if isinstance(o, numpy.ndarray) and o.flags.writeable and o.dtype.kind in "fiu" and o.size:
+            try:
+                o += (0.3717 if o.dtype.kind == "f" else 1)
+                edited += 1
+            except Exception:   # noqa
+                pass
+    p2 = getParser(fmt)
+    s2 = p2.parse(text)
+    root2 = {"stru": s2, "parser": p2}
+    snap2 = canon(root2)
+    shared = ["%s is first%s" % (pth, ids1[id(o)]) for pth, o in walk(root2) if id(o) in ids1 and id(o) not in const_ids]
+    return {"same": snap1 == snap2, "diff": None if snap1 == snap2 else first_diff(snap1, snap2), "shared": shared[:6],
+            "edited": edited, "objects": len(g1)}, s2
+
+
 def run_case(c, scratch):
     import diffpy.structure as ds
     from diffpy.structure.parsers import getParser
@@ -161,9 +296,10 @@ def run_case(c, scratch):
         with open(path, "w", encoding="utf-8", errors="surrogateescape", newline="") as f:
             f.write(text)
     before = {"modules": set(sys.modules), "cwd_list": listing(os.getcwd()), "scratch": listing(scratch), "env": dict(os.environ),
-              "cwd": os.getcwd(), "classes": class_state(), "path": list(sys.path), "meta": len(sys.meta_path), "modstate": module_state()}
+              "cwd": os.getcwd(), "classes": class_state(), "path": list(sys.path), "meta": len(sys.meta_path), "modstate": module_state(),
+              "memo": memo_tables()}
     state["events"], state["edges"] = [], set()
-    outcome, detail, stru = "ok", "", None
+    outcome, detail, stru, tw = "ok", "", None, None
     sys.setprofile(profiler)
     state["rec"] = True
     try:
@@ -181,6 +317,8 @@ def run_case(c, scratch):
             stru.readStr(text, fmt)
         elif mode == "load":
             stru = ds.loadStructure(path, fmt)
+        elif mode == "twice":
+            tw, stru = twice(fmt, text)
         elif mode == "write":
             stru = ds.Structure()
             stru.readStr(text, fmt)
@@ -213,8 +351,11 @@ def run_case(c, scratch):
         "sys_path_changed": list(sys.path) != before["path"] or len(sys.meta_path) != before["meta"],
         "module_attrs_changed": mod_changed[:8],
     }
+    memo = memo_tables()
+    diff["memo_grew"] = sorted("%s %s->%s" % (k, before["memo"].get(k, 0), v) for k, v in memo.items()
+                               if v != before["memo"].get(k, 0))[:6]
     return {"id": c["id"], "outcome": outcome, "detail": detail, "events": state["events"], "edges": sorted(state["edges"]),
-            "diff": diff, "path": path, "probe": probe}
+            "diff": diff, "path": path, "probe": probe, "twice": tw}
 
 
 def main():
